@@ -35,7 +35,7 @@ def temperature_spec(draw, T0, total_time, allow_profile=True, max_span=120.0):
 
 
 @st.composite
-def toy_phase(draw, name, T0, x0, vmA, allow_shapes=True, sites=None, undersat=True, allow_elastic=False):
+def toy_phase(draw, name, T0, x0, vmA, allow_shapes=True, sites=None, undersat=True, allow_elastic=False, allow_kbeta=False):
     """Phase parameters constructed so that the nucleation barrier G*/kT lies in a useful range."""
     xb = draw(st.floats(max(0.2, min(0.7, 6 * x0)), 0.75))
     if undersat and draw(st.integers(0, 5)) == 5:
@@ -71,6 +71,8 @@ def toy_phase(draw, name, T0, x0, vmA, allow_shapes=True, sites=None, undersat=T
         e1 = draw(st.floats(2e-3, 1e-2))
         e3 = e1 * draw(st.floats(1.5, 5.0))
         p["elastic"] = {"eig": [e1, e1, e3] if p["shape"] == "plate" else [e3, e3, e1], "G": draw(st.floats(2e10, 8e10)), "nu": draw(st.floats(0.25, 0.4))}
+    if allow_kbeta and draw(st.integers(0, 2)) == 2:
+        p["kbeta"] = draw(st.floats(0.05, 1.0))      # size-dependent precipitate composition (see toy.ToyBinary.getInterfacialComposition)
     p["VmB"] = _vol(draw, vmB)
     p["_omega"] = (x0 - xeq) / (xb * ratio - xeq) if S > 1 else None
     return p
@@ -116,12 +118,12 @@ def _times(draw, dtScale, total_log10=None):
 
 
 @st.composite
-def toy_binary_scenario(draw, cap=400, max_phases=3, allow_profile=True, sites=None, allow_shapes=True, undersat=True, total_log10=None, dtScales=None, allow_elastic=False):
+def toy_binary_scenario(draw, cap=400, max_phases=3, allow_profile=True, sites=None, allow_shapes=True, undersat=True, total_log10=None, dtScales=None, allow_elastic=False, allow_kbeta=False):
     T0 = draw(st.floats(500.0, 900.0))
     nph = min(max_phases, draw(st.sampled_from([1, 1, 1, 2, 2, 3])))
     x0 = 10 ** draw(st.floats(-3.3, -1.3))
     vmA = 10 ** draw(st.floats(-5.3, -4.8))
-    phases = [draw(toy_phase("P%d" % i, T0, x0, vmA, allow_shapes=allow_shapes, sites=sites, undersat=undersat, allow_elastic=allow_elastic)) for i in range(nph)]
+    phases = [draw(toy_phase("P%d" % i, T0, x0, vmA, allow_shapes=allow_shapes, sites=sites, undersat=undersat, allow_elastic=allow_elastic, allow_kbeta=allow_kbeta)) for i in range(nph)]
     cons = draw(constraints_spec())
     if dtScales:
         cons["dtScale"] = draw(st.sampled_from(dtScales))
